@@ -148,6 +148,10 @@ pub fn configs(tier: Tier) -> Vec<Cfg> {
 // ---------------------------------------------------------------------------------------------
 // Statement alphabet
 
+/// Set while C16 runs: extra statements that only matter for the reported queries / assignments (C16 has no
+/// known-finding lists, so its alphabet can grow without regenerating the lists of C01/C02/C12).
+pub static EXTRA_FOR_C16: std::sync::atomic::AtomicBool = std::sync::atomic::AtomicBool::new(false);
+
 pub fn stmts(tier: Tier) -> Vec<String> {
     let mut v: Vec<String> = Vec::new();
     let mut add = |s: &str| v.push(s.to_string());
@@ -243,6 +247,12 @@ pub fn stmts(tier: Tier) -> Vec<String> {
         "y = \"t{{ x }}\"", "y = x <= \"a\"", "y = x != null && x", "y = x > 0 || x < 0", "y = [x < 1, x * 2]", "y = x.b + 1", "y = x[0] - 1",
     ] {
         add(s);
+    }
+    if EXTRA_FOR_C16.load(std::sync::atomic::Ordering::Relaxed) {
+        // `ok, err =` whose two targets have the SAME value path under different roots
+        for s in [".b, %b = to_int(.a)", "%k, .k = to_int(.a)", "x.b, .b = to_int(.a)", ".a.b, %a.b = to_int(.c)", "x, .x = to_int(.a)", "%m, x = to_int(.a)", ".b, %b = 10 / .a", "%b, .b = { .k = 1; to_int(.a) }"] {
+            add(s);
+        }
     }
     if tier.thorough() {
         for s in [
@@ -834,6 +844,7 @@ pub fn explore_all(tier: Tier) -> PmResult {
 fn run_for(property: &'static str, tier: Tier) -> Report {
     let mut rep = Report::new(property, tier, "model_checking");
     CUT_AFTER_STATE_VIOLATION.store(property != "C02", std::sync::atomic::Ordering::Relaxed);
+    EXTRA_FOR_C16.store(property == "C16", std::sync::atomic::Ordering::Relaxed);
     let res = explore_all(tier);
     let mut states = 0;
     let mut transitions = 0;
